@@ -840,13 +840,16 @@ func (w *c19World) reloadCase(out *vlib.Out, evs []c19Event) {
 		rm.GeoIP = marker
 		panicked := ""
 		reloaded := false
+		cfgBefore := c19CfgRepr(rm.RegConfig)
+		var newConf *Config
 		func() {
 			defer func() {
 				if r := recover(); r != nil {
 					panicked = fmt.Sprint(r)
 				}
 			}()
-			newConf, err := ParseConfig()
+			var err error
+			newConf, err = ParseConfig()
 			if err != nil {
 				return
 			}
@@ -866,9 +869,17 @@ func (w *c19World) reloadCase(out *vlib.Out, evs []c19Event) {
 			outs = append(outs, "panic")
 			continue
 		}
+		// OnReload field by field, next to the program extracted from its source (CJ/Gen/C19Reload.lean): where
+		// the selector, the GeoIP database and every field of RegConfig come from after the call
+		held := c19HeldLocks(rm)
+		if reloaded && newConf != nil && newConf.RegConfig != nil {
+			line, got := c19OnReloadCase(rm, cfgBefore, c19CfgRepr(newConf.RegConfig), selBefore, Database(marker), sf, gf, len(held))
+			out.Case(line, got, true)
+			out.Count("onreload:" + strings.SplitN(got, " cfg=", 2)[0])
+		}
 		// no lock may stay held once the reload has returned (the readers would block for ever)
 		out.Checked()
-		if held := c19HeldLocks(rm); len(held) > 0 {
+		if len(held) > 0 {
 			fail("C19:reload-left-lock-held", fmt.Sprintf("after reload %d (%s) these locks are still held: %s", k, e.String(), strings.Join(held, ", ")))
 			dead = true
 			outs = append(outs, "panic")
@@ -989,6 +1000,85 @@ func (w *c19World) reloadCase(out *vlib.Out, evs []c19Event) {
 	}
 	out.Case(fmt.Sprintf("reload2|%d,%d,%d|%s|%s|%s", len(pr.addrs), len(pr.hosts), len(pr.phantoms), ifs, startFields, strings.Join(mline, ";")),
 		strings.Join(outs, ";"), true)
+}
+
+// c19CfgRepr: one comparable token per field of a RegConfig (the mutex excepted): slices by backing array and
+// length (OnReload copies slice headers), pointers by address, everything else by value.  Read through reflect
+// without Interface(), so unexported fields are included and a field added later is picked up by itself.
+func c19CfgRepr(rc *RegConfig) map[string]string {
+	m := map[string]string{}
+	v := reflect.ValueOf(rc).Elem()
+	for i := 0; i < v.NumField(); i++ {
+		name := v.Type().Field(i).Name
+		if name == "policyMu" {
+			continue
+		}
+		f := v.Field(i)
+		switch f.Kind() {
+		case reflect.Slice:
+			m[name] = fmt.Sprintf("s%x/%d", f.Pointer(), f.Len())
+		case reflect.Ptr, reflect.Map, reflect.Chan, reflect.Func, reflect.UnsafePointer:
+			m[name] = fmt.Sprintf("p%x", f.Pointer())
+		case reflect.Interface:
+			if f.IsNil() {
+				m[name] = "inil"
+			} else {
+				m[name] = fmt.Sprintf("i%s/%v", f.Elem().Type(), f.Elem().Kind() == reflect.Ptr && f.Elem().Pointer() != 0)
+			}
+		case reflect.Bool:
+			m[name] = fmt.Sprint(f.Bool())
+		case reflect.Int, reflect.Int8, reflect.Int16, reflect.Int32, reflect.Int64:
+			m[name] = fmt.Sprint(f.Int())
+		case reflect.Uint, reflect.Uint8, reflect.Uint16, reflect.Uint32, reflect.Uint64:
+			m[name] = fmt.Sprint(f.Uint())
+		case reflect.String:
+			m[name] = "q" + f.String()
+		default:
+			m[name] = "?" + f.Kind().String()
+		}
+	}
+	return m
+}
+
+// c19OnReloadCase: the model line and the implementation's answer for one call of OnReload.  Only the fields in
+// which the running and the new configuration differ can tell "copied" from "untouched"; their names go on the line.
+func c19OnReloadCase(rm *RegistrationManager, before, fresh map[string]string, selBefore *phantoms.PhantomIPSelector, marker Database, sf, gf string, held int) (string, string) {
+	after := c19CfgRepr(rm.RegConfig)
+	var names []string
+	for n := range before {
+		if before[n] != fresh[n] {
+			names = append(names, n)
+		}
+	}
+	sort.Strings(names)
+	var cfg []string
+	for _, n := range names {
+		switch after[n] {
+		case fresh[n]:
+			cfg = append(cfg, n+":n")
+		case before[n]:
+			cfg = append(cfg, n+":o")
+		default:
+			cfg = append(cfg, n+":x")
+		}
+	}
+	sel := "new"
+	if rm.PhantomSelector == nil {
+		sel = "nil"
+	} else if rm.PhantomSelector == selBefore {
+		sel = "old"
+	}
+	geo := "new"
+	if rm.GeoIP == nil {
+		geo = "nil"
+	} else if rm.GeoIP == marker {
+		geo = "old"
+	}
+	fl := strings.Join(names, ",")
+	if fl == "" {
+		fl = "-"
+	}
+	return fmt.Sprintf("onreload|%s|%s|%s", sf, gf, fl), fmt.Sprintf("sel=%s geo=%s cfg=%s held=%d", sel, geo, strings.Join(cfg, ","), held)
 }
 
 // Database is the interface type of RegistrationManager.GeoIP (for comparing interface values)
@@ -1161,6 +1251,9 @@ func TestVerifC19(t *testing.T) {
 		out.Count("related:random")
 	}
 
+	// ---- ParseBlocklists on the text of the subnet entries, next to the model that reads the same text
+	c19TextPart(out, r)
+
 	// ---- exhaustive over the liveness keys and over the policy keys, the other keys unset / random
 	pick := make([]int, len(c19LivenessKeys))
 	var rec func(keys []c19Key, i int, emit func())
@@ -1329,6 +1422,31 @@ func (w *c19World) replay(t *testing.T, out *vlib.Out, path string) {
 			if res.kind == "ok" {
 				w.housekeeping(out, content, res)
 			}
+		case strings.HasPrefix(line, "c19text|"):
+			f := strings.Split(line, "|")
+			if len(f) != 4 {
+				continue
+			}
+			items := func(x string) []c19TextEntry {
+				var l []c19TextEntry
+				if x == "-" {
+					return nil
+				}
+				for _, h := range strings.Split(x, "/") {
+					if h == "." {
+						h = "-"
+					}
+					e := c19TextEntry{text: unhex(h), kind: "unknown"}
+					// the replay has the text only: an entry the harness's own reading takes for <address>/<bits> is "good"
+					if n := c19TextReread(e.text); n != nil {
+						e.kind, e.net = "good", n
+					}
+					l = append(l, e)
+				}
+				return l
+			}
+			c19TextCase(out, items(f[1]), items(f[2]), items(f[3]), nil)
+			fmt.Printf("REPLAY text lists %q %q %q\n", f[1], f[2], f[3])
 		case strings.HasPrefix(line, "c19reload|"):
 			var evs []c19Event
 			for _, e := range strings.Split(strings.SplitN(line, "|", 2)[1], ",") {
